@@ -138,7 +138,7 @@ def worker(k, q, results, lock, props, args):
     if not os.path.isdir(repo):
         os.makedirs(wdir, exist_ok=True)
         sh(["rsync", "-a", "--exclude", "target", "--exclude", ".git", REPO + "/", repo + "/"])
-        rc, out = sh("cargo test --offline --no-run", cwd=repo, timeout=1800)
+        rc, out = (0, "") if args.recheck else sh("cargo test --offline --no-run", cwd=repo, timeout=1800)
         if rc != 0:
             print("worker %d: baseline build failed\n%s" % (k, out[-2000:]), file=sys.stderr)
             return
@@ -155,11 +155,17 @@ def worker(k, q, results, lock, props, args):
             text = apply_site(lines, site)
             rec["after"] = text.split("\n")[site[1]].strip()
             open(path, "w").write(text)
-            rc, out = sh("cargo test --offline --no-run 2>&1 | tail -30", cwd=repo, timeout=900)
+            if args.recheck:
+                rc, out = 0, ""
+            else:
+                rc, out = sh("cargo test --offline --no-run 2>&1 | tail -30", cwd=repo, timeout=900)
             if "error" in out and ("could not compile" in out or "error[" in out or "error:" in out):
                 rec["status"] = "nocompile"
             else:
-                rc, out = sh("cargo test --offline --no-fail-fast -- --test-threads 4 2>&1", cwd=repo, timeout=240)
+                if args.recheck:
+                    rc, out = 0, ""
+                else:
+                    rc, out = sh("cargo test --offline --no-fail-fast -- --test-threads 4 2>&1", cwd=repo, timeout=240)
                 if rc == 124:
                     rec["status"] = "killed-timeout"
                 elif rc != 0:
@@ -205,6 +211,7 @@ def main():
     ap.add_argument("--out", default=os.path.join(VERIF, "sweep/results.jsonl"))
     ap.add_argument("--list", action="store_true")
     ap.add_argument("--clean", action="store_true")
+    ap.add_argument("--recheck", default="", help="results.jsonl of an earlier run: re-evaluate its survivors with the current rules only (no test run)")
     args = ap.parse_args()
     if args.clean:
         shutil.rmtree(ROOT, ignore_errors=True)
@@ -224,6 +231,9 @@ def main():
                 pass
     q = queue.Queue()
     n = 0
+    only_keys = None
+    if args.recheck:
+        only_keys = {json.loads(l)["key"] for l in open(args.recheck) if json.loads(l).get("status") == "survived"}
     for f in files:
         rel = os.path.relpath(f, REPO)
         lines, ss = sites(f)
@@ -231,7 +241,7 @@ def main():
             if args.ops and not any(s[0].startswith(o) for o in args.ops.split(",")):
                 continue
             key = hashlib.sha1(("%s|%s|%s|%s" % (rel, lines[s[1]].strip(), s[0], s[2][0] if s[2] else "")).encode()).hexdigest()[:12]
-            if key in done:
+            if key in done or (only_keys is not None and key not in only_keys):
                 continue
             done.add(key)
             if args.list:
